@@ -1054,9 +1054,22 @@ std::string sqf::parser::preprocessor::impl_default::instance::parse_file(::sqf:
         {
             case '"':
             {
-                is_in_string = true;
+                was_new_line = false; // a '#' behind a string is not the first thing on its line
                 auto word = wordstream.str();
                 wordstream.str("");
+                auto m = word.empty() ? std::optional<::sqf::runtime::parser::macro>{} : try_get_macro(word);
+                if (m.has_value() && (current_file_scope().conditions.empty() || current_file_scope().conditions.back().allow_write))
+                { // a macro name directly in front of the string: expand it, then read the quote again
+                    fileinfo.move_back();
+                    auto res = handle_macro(runtime, fileinfo, fileinfo, m.value(), empty_parammap);
+                    if (m_errflag)
+                    {
+                        return res;
+                    }
+                    sstream << res;
+                    break;
+                }
+                is_in_string = true;
                 if (current_file_scope().conditions.empty() || current_file_scope().conditions.back().allow_write)
                     sstream << word << c;
             } break;
